@@ -138,3 +138,23 @@ PROPS["C13"] = {
     "quick": [R("TestPropPickleVsPlain", 3000), R("TestPropMalformedFrame", 1500)],
     "thorough": [R("TestPropPickleVsPlain", 40000, shards=12, timeout=2400), R("TestPropMalformedFrame", 20000, shards=4, timeout=2400)],
 }
+
+PROPS["C15"] = {
+    "pkg": "c15", "level": "exploration",
+    "rule": ("rapid draws 1-8 destinations with distinct (host, instance) pairs (IPv4 literals and DNS-like names, with/without port and instance), "
+             "a permutation of them, and 50-300 metric names plus TARGETED names (a precomputed name for every 16-bit ring position) placed "
+             "exactly on, just before and just after every position collision between different nodes, beyond the last ring entry (wrap-around) "
+             "and at positions 0/65535. hasher_vs_carbon: route.NewConsistentHasher on destinations built by destination.New must agree, key by "
+             "key, with a Go re-implementation of carbon 0.9.x ConsistentHashRing which is itself cross-checked on every case against a direct "
+             "transcription run by CPython (pyhelpers/carbon_ring.py); the permuted listing must agree too. route_assign_churn: a real "
+             "ConsistentHashing route with real destinations on refusing loopback addresses; which destination's drop counter moves identifies "
+             "the receiver of each line (exactly one), compared with the reference; then add/remove through (*ConsistentHashing).Add / "
+             "DelDestination: after add only keys landing on the new node moved, after remove only keys the removed node owned. Non-trivial: "
+             "ring with >=1 collision and a key on a collided position or wrapping (churn: >=2 nodes and >=1 key moved). Distinct = hash(nodes, keys)."),
+    "level_text": "Differential property testing against an independent re-implementation of Carbon's ring (cross-checked with CPython) plus metamorphic relations (order independence, minimal disruption); holds on all generated rings/keys.",
+    "level_note": "Carbon 0.9.x ring (no collision bumping); the >=1.0 variant is order-dependent and cannot be what 'in any order' means. DNS-like hosts are only exercised at hasher level (no resolver offline); the route-level check uses loopback literals.",
+    "technique": "property-based testing (rapid): differential oracle vs re-implemented and CPython-run carbon ring; metamorphic add/remove/permutation relations",
+    "assumptions": ["carbon 0.9.x lib/carbon/hashing.py is the reference"],
+    "quick": [R("TestPropHasherVsCarbon", 400), R("TestPropRouteAssignAndChurn", 150)],
+    "thorough": [R("TestPropHasherVsCarbon", 5000, shards=10, timeout=2400), R("TestPropRouteAssignAndChurn", 2000, shards=6, timeout=2400)],
+}
